@@ -81,41 +81,13 @@ fn fam_tag(f: &Family) -> &'static str {
     }
 }
 fn fam_from(s: &str) -> Family {
-    match s {
-        "Exp1Off" => Family::Exp1Off,
-        "Exp2Off" => Family::Exp2Off,
-        "Exp3" => Family::Exp3,
-        "GaussDecayOff" => Family::GaussDecayOff,
-        "OLeary" => Family::OLeary,
-        o => panic!("family {}", o),
-    }
+    Family::from_json(&json!(s))
 }
 fn wk_json(w: &WKind) -> Value {
-    match w {
-        WKind::ZeroAt(p) => json!({"ZeroAt": p}),
-        WKind::NegAt(p) => json!({"NegAt": p}),
-        o => json!(format!("{:?}", o)),
-    }
+    w.to_json()
 }
 fn wk_parse(v: &Value) -> WKind {
-    if let Some(p) = v.get("ZeroAt") {
-        return WKind::ZeroAt(p.as_u64().unwrap() as usize);
-    }
-    if let Some(p) = v.get("NegAt") {
-        return WKind::NegAt(p.as_u64().unwrap() as usize);
-    }
-    match v.as_str().unwrap() {
-        "None" => WKind::None,
-        "Ones" => WKind::Ones,
-        "Threes" => WKind::Threes,
-        "Dyadic" => WKind::Dyadic,
-        "Ramp" => WKind::Ramp,
-        "InvSigma" => WKind::InvSigma,
-        "Tiny" => WKind::Tiny,
-        "Huge" => WKind::Huge,
-        "Spread" => WKind::Spread,
-        o => panic!("wkind {}", o),
-    }
+    WKind::from_json(v)
 }
 fn case_json(c: &Case) -> Value {
     json!({"fam": fam_tag(&c.fam), "alpha": c.alpha, "coefs": c.coefs, "n": c.n, "prov": c.prov.name(), "scalar": if c.f32_ {"f32"} else {"f64"}, "par": c.par, "mrhs_api": c.mrhs_api,
@@ -492,10 +464,25 @@ fn check_c06_fit<T: Sc>(ctx: &Ctx, c: &Case, su: &Setup<T>) {
     match (s1, s2) {
         (Some(s1), Some(s2)) => {
             let (x1, x2) = (s1.reduced_chi2().d(), s2.reduced_chi2().d());
-            if !((x1 - x2).abs() <= rel * 100.0 * x1.abs().max(x2.abs())) {
+            // floor: residuals at rounding level of the data (interpolating fits) have a reduced chi2 that is pure rounding noise
+            let ynorm = su.y.iter().zip((0..su.y.len()).map(|i| w[i % w.len()].d())).map(|(y, wi)| (y.d() * wi).powi(2)).sum::<f64>().sqrt();
+            let floor = (1024.0 * T::EPS * ynorm).powi(2);
+            if !((x1 - x2).abs() <= rel * 100.0 * x1.abs().max(x2.abs()) + floor) {
                 ctx.with(|s| s.violate("C06", "reduced-chi2-differs", cj(), format!("reduced chi2 {:e} (weighted) vs {:e} (row-scaled)", x1, x2)));
             }
             let (m1, m2) = (mat_d(s1.covariance_matrix()), mat_d(s2.covariance_matrix()));
+            // non-finite entries (a vanishing chi2 times an overflowing inverse): the twins must agree on where they are
+            if m1.iter().any(|v| !v.is_finite()) || m2.iter().any(|v| !v.is_finite()) {
+                let same = m1.iter().zip(m2.iter()).all(|(a, b)| a.is_finite() == b.is_finite());
+                if !same {
+                    ctx.with(|s| s.violate("C06", "covariance-differs", cj(), "non-finite covariance entries in different places".into()));
+                }
+                ctx.with(|s| {
+                    s.inc("statistics_compared");
+                    s.inc("distinct_nontrivial")
+                });
+                return;
+            }
             // both sides invert the same H^T H up to rounding: normwise agreement within K eps kappa(H^T H)
             let ev = refla::sym_eigvals(&m1);
             let (emax, emin) = (ev.iter().cloned().fold(0.0, f64::max), ev.iter().cloned().fold(f64::INFINITY, f64::min));
@@ -510,7 +497,21 @@ fn check_c06_fit<T: Sc>(ctx: &Ctx, c: &Case, su: &Setup<T>) {
             ctx.with(|s| s.inc("statistics_compared"));
         }
         (None, None) => {}
-        _ => ctx.with(|s| s.violate("C06", "statistics-availability-differs", cj(), "fit_with_statistics succeeds for only one of the twins".into())),
+        (a, b) => {
+            // an (almost) singular H^T H is inverted by one twin and found exactly singular by the other: both answers are
+            // rounding artefacts of an ill-posed inversion, not a difference in behaviour - judged only when the available
+            // covariance is that of a well conditioned matrix
+            let avail = a.as_ref().or(b.as_ref()).unwrap();
+            let m = mat_d(avail.covariance_matrix());
+            let ev = refla::sym_eigvals(&m);
+            let (emax, emin) = (ev.iter().cloned().fold(0.0, f64::max), ev.iter().cloned().fold(f64::INFINITY, f64::min));
+            let kappa = if emin > 0.0 && emax.is_finite() { emax / emin } else { f64::INFINITY };
+            if 4096.0 * T::EPS * kappa <= 0.25 {
+                ctx.with(|s| s.violate("C06", "statistics-availability-differs", cj(), format!("fit_with_statistics succeeds only for the {} problem (condition number of the available covariance {:e})", if a.is_some() { "weighted" } else { "row-scaled" }, kappa)));
+            } else {
+                ctx.with(|s| s.inc("statistics_availability_ambiguous_singular"));
+            }
+        }
     }
     ctx.with(|s| s.inc("distinct_nontrivial"));
 }
@@ -864,7 +865,9 @@ fn main() {
                 let mut k = 0u64;
                 c05_cases(false, &mut |mut c| {
                     k += 1;
-                    let kinds = [WKind::Ones, WKind::Threes, WKind::Ramp, WKind::InvSigma, WKind::Spread, WKind::Tiny, WKind::Dyadic, WKind::NegAt(3)];
+                    // KeepOnly(M+P): exactly as many samples with a non-zero weight as there are parameters, N larger
+                    let mp = c.fam.m() + c.fam.p();
+                    let kinds = [WKind::Ones, WKind::Threes, WKind::Ramp, WKind::InvSigma, WKind::Spread, WKind::Tiny, WKind::Dyadic, WKind::NegAt(3), WKind::ZeroAt(1), WKind::KeepOnly(mp), WKind::KeepOnly(mp + 1)];
                     if c.w != WKind::None && (thorough || k % 4 == 0) {
                         c.w = kinds[(k as usize / 4) % kinds.len()];
                         visit(c)
